@@ -4,6 +4,7 @@
 package query
 
 import (
+	"slices"
 	"strings"
 
 	"github.com/apmckinlay/gsuneido/compile/ast"
@@ -120,18 +121,47 @@ func (a *updateAction) execute(th *Thread, ut *db19.UpdateTran) int {
 	for row := q.Get(th, Next); row != nil; row = q.Get(th, Next) {
 		rows = append(rows, row)
 	}
+	// the new record must keep the stored fields that the query omits
+	rechdr := unhideFields(hdr, ut.GetSchema(table).Columns)
 	n := 0
 	for _, row := range rows {
 		ctx.Row = row
-		r := SuRecordFromRow(row, hdr, table, tran)
+		r := SuRecordFromRow(row, rechdr, table, tran)
 		for i, col := range a.cols {
 			r.Put(th, SuStr(col), a.exprs[i].Eval(&ctx))
 		}
-		newrec := r.ToRecord(th, hdr)
+		newrec := r.ToRecord(th, rechdr)
 		ut.Update(th, table, row[0].Off, newrec)
 		n++
 	}
 	return n
+}
+
+// unhideFields returns a header where the stored fields that a project
+// replaced with "-" have their names again (and are columns),
+// so that building a record from a row copies them instead of blanking them.
+func unhideFields(hdr *Header, stored []string) *Header {
+	if len(hdr.Fields) == 0 || len(hdr.Fields[0]) != len(stored) {
+		return hdr
+	}
+	var flds []string
+	cols := hdr.Columns
+	for i, f := range hdr.Fields[0] {
+		if f == "-" && stored[i] != "-" && !slices.Contains(cols, stored[i]) {
+			if flds == nil {
+				flds = slices.Clone(hdr.Fields[0])
+				cols = slices.Clone(cols)
+			}
+			flds[i] = stored[i]
+			cols = append(cols, stored[i])
+		}
+	}
+	if flds == nil {
+		return hdr
+	}
+	fields := slices.Clone(hdr.Fields)
+	fields[0] = flds
+	return NewHeader(fields, cols)
 }
 
 //-------------------------------------------------------------------
